@@ -74,9 +74,6 @@ class CompoundGammaDirichletPrior(CallableModel):
     def _sample_shape(self) -> torch.Size:
         return self.tree_model.sample_shape
 
-    def handle_parameter_changed(self, variable, index, event) -> None:
-        pass
-
     @classmethod
     def from_json(
         cls, data: dict[str, Any], dic: dict[str, Identifiable]
